@@ -19,6 +19,7 @@ CFG = render.cfg_with()
 STRINGS = {
     "num": ["5", "12", "1000", "7"],
     "frac": ["2,5", "0,75", "10,125"],
+    "based": ["0x1F", "0o17", "0b101", "0XAB", "0O7", "0B11", "0xff"],
     "op": ["+", "-", "*", "/"],
     "word": ["zorp", "blip", "quux", "ième", "jährig", "günlük", "march日本"],
     "mb2": ["ğü", "çöş", "ñandú", "ärger"],
@@ -28,7 +29,7 @@ STRINGS = {
     "zone": ["EST", "utc", "GMT+5:30"],
     "month": ["march", "ocak", "Dec"],
 }
-KIND = {"num": "Number", "frac": "Number", "op": "Operator"}
+KIND = {"num": "Number", "frac": "Number", "based": "Number", "op": "Operator"}
 
 
 def compose(classes, comment, rng, gap=" "):
